@@ -53,6 +53,8 @@ def run(tier, seed):
             p = o if isinstance(o, measured.Prefix) else getattr(o, "prefix", None)
             if p is not None and p.base != 0:
                 bs.add(p.base)
+                if p.exponent != int(p.exponent):
+                    bs.add("base-changed")
         return bs
 
     def check(kind, src_a, src_b):
@@ -61,6 +63,11 @@ def run(tier, seed):
         try:
             a, b = eval(src_a, ns), eval(src_b, ns)
         except Exception as e:
+            if mixed_bases and kind.endswith("-root") and type(e).__name__ == "FractionalDimensionError":
+                if not any(f["key"] == "mixed-base-root:FractionalDimensionError" for f in failures):
+                    failures.append({"key": "mixed-base-root:FractionalDimensionError", "desc": "%s raised %s: %s" % (src_a, type(e).__name__, e),
+                                     "a": src_a, "b": src_b, "mode": "scale-or-is"})
+                return
             failures.append({"key": "%s:exception" % kind, "desc": "%s raised %s: %s" % (src_a + " ; " + src_b, type(e).__name__, e), "a": src_a, "b": src_b, "mode": "is"})
             return
         distinct.add(repr(a))
@@ -76,7 +83,7 @@ def run(tier, seed):
             failures.append({"key": "%s:not-identical" % kind, "desc": "%s  is not  %s  (%r vs %r)" % (src_a, src_b, a, b), "a": src_a, "b": src_b,
                              "mode": "scale-or-is" if mixed_bases else "is"})
 
-    while evals < n and len(failures) < 6:
+    while evals < n and len([f for f in failures if not f['key'].startswith('mixed-base-root')]) < 6:
         kind = rng.choice(["unit", "unit", "unit", "dim", "prefix"])
         if kind == "unit":
             pf = rng.choice([si, iec])
